@@ -6,9 +6,10 @@ Events : <class>/<interface>/<glib:boxed>/<record glib:is-gtype-struct-for>/<pro
 Oracle : reference derived from the generated model (scanned declarations + dump), following the property statement.
 """
 import collections, os, re
-from .. import core, girx, apigen, objgen
+from .. import core, girx, apigen, objgen, realdump
 
 _st = {}
+REAL_EVERY = 8      # every 8th case takes its dump from the tree's own gdump.c (compiled type factory) instead of writing it
 
 
 def setup_subject():
@@ -22,6 +23,9 @@ def setup_subject():
     scan.count_entries('maintransformer', 'MainTransformer', ['_pass_type_resolution', '_pair_class_virtuals', '_pair_property_accessors',
                                                             '_pair_quarks_with_enums'])
     _st['scan'] = scan
+    from .. import csan
+    _st['csan'] = csan
+    _st['info'] = csan.build()          # girepository/gdump.c of the working tree, ASan+UBSan: the producer of the real dumps
     return _st
 
 
@@ -265,11 +269,47 @@ def run_case(case):
     scan = st['scan']
     rng = core.rng_for(seed, 'c12', idx)
     model = objgen.gen_objlib(rng)
-    header, dump = objgen.render_objlib(model, rng)
+    res = {'viol': [], 'classes': [], 'hits': {}}
+    real = (idx % REAL_EVERY == 0)
+    if real:
+        # the types of the model are registered with the GObject runtime and dumped by the tree's own gdump.c; that dump is
+        # judged against what was registered and then handed to the scanner in place of the synthetic one
+        import shutil, tempfile
+        model = realdump.restrict(model, rng)
+        header, _ = objgen.render_objlib(model, rng)
+        wd = tempfile.mkdtemp(prefix='vt-c12-')
+        try:
+            dump, se, rc = realdump.produce(st['info'], st['csan'], model, wd)
+            factory = open(os.path.join(wd, 'factory.c')).read() if os.path.exists(os.path.join(wd, 'factory.c')) else ''
+        finally:
+            shutil.rmtree(wd, ignore_errors=True)
+        if realdump.SANITIZER.search(se or ''):
+            res['viol'].append(('gdump:sanitizer-report', se[-2500:], {'factory_c': factory}))
+            return res
+        if dump is None:
+            if rc == -1:
+                res['harness'] = 'type factory did not compile: %s' % se[-300:]
+            else:
+                res['viol'].append(('gdump:failed', 'g_irepository_dump failed (rc=%s): %s' % (rc, (se or '')[-600:]), {'factory_c': factory}))
+            return res
+        if realdump.NOISE.search(se):
+            res['harness'] = 'the type system complained about the generated registrations: %s' % realdump.NOISE.search(se).group(0)
+            return res
+        res['hits']['real-dump'] = 1
+        try:
+            got = realdump.parse(dump)
+        except Exception as e:
+            res['viol'].append(('gdump:not-well-formed', '%s: %s' % (type(e).__name__, e), {'factory_c': factory, 'dump': dump}))
+            return res
+        for k, w in realdump.differences(realdump.expected(model), got):
+            res['viol'].append((k, w, {'factory_c': factory, 'dump': dump}))
+        res['hits']['real-dump-elements'] = len(got)
+        model = realdump.judge_model(model)
+    else:
+        header, dump = objgen.render_objlib(model, rng)
     m0 = dict(scan.mech)
     r = scan.scan(apigen.library(headers=[('/src/foo.h', header)], dump=dump))
-    res = {'viol': [], 'classes': [], 'hits': {}}
-    replay = {'header': header, 'dump': dump}
+    replay = {'header': header, 'dump': dump, 'real_dump': real}
     if r['exception']:
         res['viol'].append(('exception:' + r['exception'].split(':')[0], r['exception'] + '\n' + r.get('traceback', '')[-1500:], replay))
         return res
@@ -281,8 +321,8 @@ def run_case(case):
         return res
     res['mech'] = {k: v - m0.get(k, 0) for k, v in scan.mech.items() if v - m0.get(k, 0)}
     viol, classes, hits = judge(model, r['gir'])
-    res['classes'] = classes
-    res['hits'] = dict(hits)
+    res['classes'] = classes + (['real-dump'] if real else [])
+    res['hits'] = dict(collections.Counter(res['hits']) + hits)
     for k, w in viol:
         res['viol'].append((k, w, dict(replay, gir=r['gir'][:5000])))
     if idx < 2:
@@ -297,6 +337,7 @@ def run(args):
                      'prerequisites, private get-type), boxed types declared as record/union/opaque/not at all, registered and '
                      'unregistered enums/flags, error quarks; properties with arbitrary 32-bit flag words, signals with all flags; '
                      'class = shape keys of each element; non-trivial = element found and judged')
+    setup_subject()         # the sanitizer build of gdump.c happens once, before the workers fork
     n = int((300 if args.tier == 'quick' else 15000) * args.scale)
     cases = [(args.seed, i) for i in range(n)]
     cases = core.replay_cases(args, cases)
@@ -342,9 +383,9 @@ def run(args):
               'GDumpParser._introspect_error_quark', 'GDumpParser._execute_binary_get_tree', 'MainTransformer._pair_class_virtuals',
               'MainTransformer._pair_quarks_with_enums'):
         chk.require(chk.mechanism_entries[m] > 0, 'mechanism %s never entered' % m)
-    for h in ('class', 'interface', 'property', 'signal', 'boxed', 'enum', 'quark', 'vfunc', 'fundamental'):
+    for h in ('class', 'interface', 'property', 'signal', 'boxed', 'enum', 'quark', 'vfunc', 'fundamental', 'real-dump', 'real-dump-elements'):
         chk.require(chk.monitor_hits[h] > 0, 'oracle part %s judged nothing' % h)
     chk.require(len(harness) <= max(2, n // 50), 'harness failures: %r' % harness[:2])
-    chk.assumptions = ['dumps are synthetic (written from the model in the format girepository/gdump.c emits); the fake introspection binary copies them, so GDumpParser._execute_binary_get_tree runs for real',
+    chk.assumptions = ['7 of 8 dumps are synthetic (written from the model in the format girepository/gdump.c emits; arbitrary flag words, unknown types, hidden parents, fundamentals); every 8th is the real one: the model is turned into a C type factory that registers the types with the system libgobject and calls g_irepository_dump of the freshly built (ASan+UBSan) tree. The fake introspection binary copies the dump, so GDumpParser._execute_binary_get_tree runs for real',
                        'signal parameter names are not asserted (not in the statement)']
     return chk.finish()
